@@ -381,8 +381,9 @@ func (m *MatchRDP) Match(cx *layer4.Connection) (bool, error) {
 	}
 
 	// Validate RDPCorrInfo boundaries
+	// NOTE: RDPCorrInfo is the last element of the payload, nothing must be present after it.
 	RDPCorrInfoBytesStart := RDPNegReqBytesStart + RDPNegReqBytesTotal
-	if RDPCorrInfoBytesStart+RDPCorrInfoBytesTotal > payloadBytesTotal {
+	if RDPCorrInfoBytesStart+RDPCorrInfoBytesTotal != payloadBytesTotal {
 		return false, nil
 	}
 
